@@ -41,7 +41,7 @@ func (r *Run) attributed(fn *Func) map[string]bool {
 	}
 	out := map[string]bool{}
 	r.attrMemo[fn] = out // cycle guard
-	if fn.Obj == nil || fn.Obj.Exported() {
+	if fn.Obj == nil || !r.P.isGlue(fn.Obj) {
 		out[fn.Name] = true
 		return out
 	}
@@ -74,7 +74,7 @@ func (r *Run) attributed(fn *Func) map[string]bool {
 	}
 	n := 0
 	for _, c := range callers {
-		if c.Pkg != fn.Pkg || c == fn {
+		if (c.Pkg != fn.Pkg && !fn.Obj.Exported()) || c == fn {
 			continue
 		}
 		n++
@@ -85,6 +85,23 @@ func (r *Run) attributed(fn *Func) map[string]bool {
 	if n == 0 {
 		out[fn.Name] = true
 	}
+	return out
+}
+
+// rootsOf: the functions in whose paths the events of the given functions are analysed — the
+// functions themselves, or, for glue that is looked into, the (non-glue) functions it is attributed to.
+func (r *Run) rootsOf(fns []*Func) []*Func {
+	seen := map[*Func]bool{}
+	var out []*Func
+	for _, f := range fns {
+		for name := range r.attributed(f) {
+			if g := r.P.FuncByName(name); g != nil && !seen[g] {
+				seen[g] = true
+				out = append(out, g)
+			}
+		}
+	}
+	sort.Slice(out, func(i, j int) bool { return out[i].Name < out[j].Name })
 	return out
 }
 
@@ -107,7 +124,7 @@ func (r *Run) onlyFrom(fn *Func, allowed ...string) bool {
 			return true
 		}
 		seen[f] = true
-		if f.Obj == nil || f.Obj.Exported() {
+		if f.Obj == nil || !r.P.isGlue(f.Obj) {
 			return false
 		}
 		callers := r.callersIncludingValues(f)
@@ -231,7 +248,7 @@ func ruleFunnelOnce(r *Run) {
 						cancelled = true
 					}
 				}
-				if pe.Kind == EvGuard && pe.Cond != nil && strings.Contains(r.P.Canon(handle, pe.Cond), "call:Context.Err()") {
+				if pe.Kind == EvGuard && pe.Cond != nil && strings.Contains(r.P.Canon(pe.Fn, pe.Cond), "call:Context.Err()") {
 					g := r.Classify(path, j)
 					if (g.Outcome == "nonzero" || g.Outcome == "nonnil" || g.Outcome == "differ" || g.Outcome == "false") && pe.GKind != GFor {
 						cancelled = true // ctx.Err() != nil already
@@ -364,8 +381,8 @@ func ruleFunnelOnce(r *Run) {
 					}
 					if pe.Kind == EvCall {
 						if f, ok := pe.Callee.(*types.Func); ok && f.FullName() == "(*time.Timer).Reset" {
-							arg := r.P.Canon(handle, pe.Call.Args[0])
-							tm := r.P.Canon(handle, pe.Recv)
+							arg := r.P.Canon(pe.Fn, pe.Call.Args[0])
+							tm := r.P.Canon(pe.Fn, pe.Recv)
 							reset = arg == "recv.Handler.call:Handler.IdleTimeout()" && strings.HasPrefix(tm, "call:time.NewTimer(recv.Handler.call:Handler.IdleTimeout())")
 						}
 					}
